@@ -136,6 +136,18 @@ class ColanderT(ToolCase):
     def expected(self):
         return self.m.restrict(self.names, self.limit)
 
+    def varied(self):
+        """The same tool case asked for another selection: everything if a subset was drawn, one field otherwise."""
+        import copy
+        t = copy.copy(self)
+        t.opts = dict(self.opts)
+        if list(self.names) == list(self.m.fields):
+            t.req, t.names = [self.m.fields[-1]], [self.m.fields[-1]]
+        else:
+            t.req, t.names = ["all"], list(self.m.fields)
+        t.opts.update(vars=t.req)
+        return t
+
 
 # ------------------------------------------------------------------------------ combine
 class CombineT(ToolCase):
